@@ -25,7 +25,14 @@ async def prepare_resource_template(
         )
 
     template_spec = spec.get("template", {})
-    template = celpy.json_to_cel(template_spec)
+    try:
+        template = celpy.json_to_cel(template_spec)
+        context = celpy.json_to_cel(spec.get("context", {}))
+    except ValueError as err:
+        return PermFail(
+            message=f"ResourceTemplate '{cache_key}' holds a value CEL can not represent ({err}).",
+            location=f"prepare:ResourceTemplate:{cache_key}",
+        )
     if not template_spec:
         return PermFail(
             message=f"Missing `spec.template` for ResourceTemplate '{cache_key}'.",
@@ -49,7 +56,6 @@ async def prepare_resource_template(
             location=f"prepare:ResourceTemplate:{cache_key}",
         )
 
-    context = celpy.json_to_cel(spec.get("context", {}))
     if not isinstance(context, celtypes.MapType):
         return PermFail(
             message=f"ResourceTemplate '{cache_key}' `spec.context` ('{context}') must be an object.",
